@@ -1,9 +1,10 @@
 #![allow(non_snake_case)]
 
 use jrsonnet_evaluator::{
-	bail,
+	bail, ensure_sufficient_stack,
 	function::{builtin, FuncVal, NativeFn},
 	runtime_error,
+	stack::check_depth,
 	typed::{BoundedI32, BoundedUsize, Either2, FromUntyped},
 	val::{equals, ArrValue, IndexableVal},
 	Either, IStr, ObjValue, ObjValueBuilder, Result, ResultExt, Thunk, Val,
@@ -266,12 +267,14 @@ pub fn builtin_resolve_path(f: String, r: String) -> String {
 
 pub fn deep_join_inner(out: &mut String, arr: IndexableVal) -> Result<()> {
 	use std::fmt::Write;
+	// Counted against the stack limit: an array that contains itself must end in an error
+	let _depth = check_depth()?;
 	match arr {
 		IndexableVal::Str(s) => write!(out, "{s}").expect("no error"),
 		IndexableVal::Arr(arr) => {
 			for ele in arr.iter() {
 				let indexable = IndexableVal::from_untyped(ele?)?;
-				deep_join_inner(out, indexable)?;
+				ensure_sufficient_stack(|| deep_join_inner(out, indexable))?;
 			}
 		}
 	}
@@ -407,10 +410,13 @@ pub fn builtin_flatten_arrays(arrs: Vec<ArrValue>) -> ArrValue {
 #[builtin]
 pub fn builtin_flatten_deep_array(value: Val) -> Result<Vec<Val>> {
 	fn process(value: Val, out: &mut Vec<Val>) -> Result<()> {
+		// Counted against the stack limit: an array that contains itself must end in an error
+		let _depth = check_depth()?;
 		match value {
 			Val::Arr(arr) => {
 				for ele in arr.iter() {
-					process(ele?, out)?;
+					let ele = ele?;
+					ensure_sufficient_stack(|| process(ele, out))?;
 				}
 			}
 			_ => out.push(value),
@@ -438,7 +444,9 @@ pub fn builtin_prune(
 			_ => true,
 		}
 	}
-	Ok(match a {
+	// Counted against the stack limit: a value that contains itself must end in an error
+	let _depth = check_depth()?;
+	ensure_sufficient_stack(|| Ok(match a {
 		Val::Arr(a) => {
 			let mut out = Vec::new();
 			for (i, ele) in a.iter().enumerate() {
@@ -480,5 +488,5 @@ pub fn builtin_prune(
 			Val::Obj(out.build())
 		}
 		_ => a,
-	})
+	}))
 }
